@@ -383,7 +383,12 @@ class RnSpec(Spec):
 
     def lib(self):
         import cyecca.lie as L
-        return getattr(L, self.name)
+        if hasattr(L, self.name):
+            return getattr(L, self.name)
+        if getattr(self, "_lib", None) is None:  # R^n for other n through the public classes
+            from cyecca.lie.group_rn import RnLieAlgebra, RnLieGroup
+            self._lib = RnLieGroup(algebra=RnLieAlgebra(self.k))
+        return self._lib
 
     def mat(self, P):
         P = np.asarray(P, dtype=float)
@@ -481,7 +486,7 @@ SO3S = {k: SO3Spec(k) for k in ("quat", "mrp", "dcm", "euler")}
 
 
 def base_specs():
-    out = [SO2Spec(), SE2Spec(), RnSpec(2), RnSpec(3)]
+    out = [SO2Spec(), SE2Spec(), RnSpec(2), RnSpec(3), RnSpec(1), RnSpec(5)]
     out += [SO3S[k] for k in ("quat", "mrp", "dcm", "euler")]
     out += [SE3Spec(SO3S[k]) for k in ("quat", "mrp", "dcm", "euler")]
     out += [SE23Spec(SO3S[k]) for k in ("quat", "mrp", "dcm", "euler")]
